@@ -186,8 +186,16 @@ def check(pid, tier):
     for pat in spec.get("ignore_keys", []):
         for k in [k for k in violations if fnmatch.fnmatchcase(k, pat)]:
             del violations[k]
-    # ---- classify
+    # ---- differential clause (C11): a verdict class that the raw-pointer run of another property also produces (its known findings) is "the same observable result"
     known = load_known()
+    for other in spec.get("equal_verdicts_with", []):
+        ok_keys = [k["key"] for k in known.get("known", []) if k["property"] == other]
+        same = [k for k in violations if any(k == o or ("*" in o and fnmatch.fnmatchcase(k, o)) for o in ok_keys)]
+        for k in same:
+            del violations[k]
+        if same:
+            notes.append("%d failing classes are identical to known findings of %s on raw pointers (equal verdicts; reported there, not here)" % (len(same), other))
+    # ---- classify
     kn = [k for k in known.get("known", []) if k["property"] == pid]
     new, seen_known = [], []
     for key, v in sorted(violations.items()):
